@@ -33,7 +33,6 @@ type runStats struct {
 	PerSystem   map[string][3]int  `json:"per_system"`
 }
 
-
 func systems() []*Sys {
 	return []*Sys{
 		NewSys(2, "2001:db8::/126", "2001:db8:100::/62", 64),
